@@ -725,6 +725,12 @@ func c20Main(c *h.Ctx) {
 		}
 		c20History(c, id, c.Rng(id))
 	}
+	for k := 0; k < c.Pick(4, 30); k++ {
+		id := fmt.Sprintf("realtimer%d", k)
+		if c.Case(id) {
+			c20RealTimer(c, id, c.Rng(id))
+		}
+	}
 	for k := 0; k < c.Pick(15, 300); k++ {
 		id := fmt.Sprintf("conc%d", k)
 		if c.Case(id) {
@@ -738,7 +744,7 @@ func init() {
 		ID: "C20", Level: "exploration", Race: true,
 		Rule: "histories of 25-55 events on a real basic.Engine over a harness face and a virtual clock: EXPRESS (nested names with duplicates, CanBePrefix, implicit digest right/wrong, lifetimes 100 ms/500 ms/4 s), DATA (equal/longer/shorter/sibling names), NACK, ADVANCE (1 ms .. 4.1 s incl. lifetime+margin boundaries), ATTACH/DETACH, INCOMING INTEREST, REPLY; " +
 			"oracle: every callback at most once during and exactly once by the end, Data result only from Data that satisfies (name/CanBePrefix/digest) and during that Data's event, every unexpired pending Interest a Data satisfies is resolved in that event, Nack only for exactly that name, Timeout never before the lifetime and delivered by lifetime+margin, " +
-			"incoming Interest handed to the longest attached prefix per the harness's own map, Reply transmits iff virtual now <= deadline; plus a concurrent profile in a race-detector build (one goroutine expresses 30-60 Interests, one feeds Data, one advances the clock): every callback exactly once with a satisfying result, race reports listed as diagnostics; distinct = per-event decision classes",
+			"incoming Interest handed to the longest attached prefix per the harness's own map, Reply transmits iff virtual now <= deadline; plus a concurrent profile in a race-detector build (one goroutine expresses 30-60 Interests, one feeds Data, one advances the clock): every callback exactly once with a satisfying result, race reports listed as diagnostics; distinct = per-event decision classes; real timer: on basic.NewTimer a short-lived Interest's timer fires while the engine is still delivering (slow application callback) the Data that also satisfies it - both resolve exactly once and the engine still resolves a later Interest (10 s watchdogs)",
 		Assumptions: []string{"virtual ndn.Timer owned by the harness (thread-safe); callbacks only record", "Nacks are sent for names without implicit digest"},
 		Batches:     func(t bool) int { return 16 },
 		ChildTimeoutS: func(t bool) int {
